@@ -24,14 +24,17 @@ Definition cval_eqb (a b : cval) : bool :=
   end.
 
 Inductive cact :=
-| CLookup                 (* `if key in cache: return cache[key]` *)
+| CLookup                 (* ONE atomic step: `cache.get(key)`, an lru_cache hit, `getattr(self, "_serialize", None)` *)
 | CStore (v : cval)       (* `cache[key] = ...` *)
-| CClear                  (* `del cache[key]`, `cache.pop(key)`, `cache.clear()` *)
-| CLocal.                 (* a line that touches no shared state *)
+| CClear                  (* a REMOVAL: `del cache[key]`, `cache.pop(key)`, `cache.clear()` *)
+| CLocal                  (* a line that touches no shared state *)
+| CCheck                  (* `if key in cache:` - the membership test alone; a following CRead is the hit branch *)
+| CRead.                  (* `cache[key]` - raises KeyError when the key is not there *)
 
 Definition cprog := list cact.
 
-Inductive tstate := Running (rest : cprog) | Done (r : cval).
+(* Failed: the thread raised KeyError out of a subscript read *)
+Inductive tstate := Running (rest : cprog) | Done (r : cval) | Failed.
 
 Definition slot := option cval.
 
@@ -44,6 +47,13 @@ Definition cstep (s : slot) (t : tstate) : slot * tstate :=
   | Running (CStore v :: r) => (Some v, Running r)
   | Running (CClear :: r) => (None, Running r)
   | Running (CLocal :: r) => (s, Running r)
+  | Running (CCheck :: r) =>
+      match s with
+      | Some _ => (s, Running r)                                              (* hit: go on to the read *)
+      | None => (s, Running (match r with CRead :: r' => r' | _ => r end))    (* miss: skip the hit branch *)
+      end
+  | Running (CRead :: r) => match s with Some v => (s, Done v) | None => (s, Failed) end
+  | Failed => (s, Failed)
   end.
 
 (* ANY schedule: a list of thread indices (any number of threads, any number of pre-emptions;
@@ -63,26 +73,74 @@ Definition cstart (ps : list cprog) : list tstate := map Running ps.
 Definition cresult (cfg : slot * list tstate) (i : nat) : option cval :=
   match nth_error (snd cfg) i with Some (Done r) => Some r | _ => None end.
 
-(* a thread running alone, to completion *)
-Fixpoint calone (s : slot) (p : cprog) : slot * cval :=
+Definition cfailed (cfg : slot * list tstate) (i : nat) : bool :=
+  match nth_error (snd cfg) i with Some Failed => true | _ => false end.
+
+(* a thread running alone, to completion: the value it returns, or None if it raises *)
+Fixpoint calone (s : slot) (p : cprog) : slot * option cval :=
   match p with
-  | [] => (s, CFinal)
-  | CLookup :: r => match s with Some v => (s, v) | None => calone s r end
+  | [] => (s, Some CFinal)
+  | CLookup :: r => match s with Some v => (s, Some v) | None => calone s r end
   | CStore v :: r => calone (Some v) r
   | CClear :: r => calone None r
   | CLocal :: r => calone s r
+  | CCheck :: r => match s with
+                   | Some _ => calone s r
+                   | None => match r with CRead :: r' => calone s r' | _ => calone s r end
+                   end
+  | CRead :: r => match s with Some v => (s, Some v) | None => (s, None) end
   end.
+
+Definition tstate_of (r : option cval) : tstate := match r with Some v => Done v | None => Failed end.
 
 (* ---- decidable side conditions ---- *)
 
 Definition is_other_store (a : cact) : bool := match a with CStore (COther _) => true | _ => false end.
 Definition is_store (a : cact) : bool := match a with CStore _ => true | _ => false end.
 Definition is_local (a : cact) : bool := match a with CLocal => true | _ => false end.
+Definition is_clear (a : cact) : bool := match a with CClear => true | _ => false end.
+Definition is_read (a : cact) : bool := match a with CRead => true | _ => false end.
 
 (* every store of the protocol stores the completely computed value *)
 Definition stores_final (p : cprog) : bool := forallb (fun a => negb (is_other_store a)) p.
 Definition no_store (p : cprog) : bool := forallb (fun a => negb (is_store a)) p.
 Definition only_local (p : cprog) : bool := forallb is_local p.
+(* no removal site / no subscript read *)
+Definition no_clear (p : cprog) : bool := forallb (fun a => negb (is_clear a)) p.
+Definition no_read (p : cprog) : bool := forallb (fun a => negb (is_read a)) p.
+
+(* every subscript read is the hit branch of a membership test immediately before it (check-then-read) *)
+Fixpoint guarded (p : cprog) : bool :=
+  match p with
+  | [] => true
+  | CCheck :: CRead :: r => guarded r
+  | CRead :: _ => false
+  | _ :: r => guarded r
+  end.
+
+(* a check-then-read reached through local steps only *)
+Fixpoint find_checkread (pre : cprog) (p : cprog) : option (cprog * cprog) :=
+  match p with
+  | CCheck :: CRead :: r => Some (rev pre, r)
+  | CLocal :: r => find_checkread (CLocal :: pre) r
+  | _ => None
+  end.
+
+(* a thread working on ANOTHER key sees this slot only through its removals (`cache.clear()` empties every slot) *)
+Definition foreign_view (p : cprog) : cprog := map (fun a => match a with CClear => CClear | _ => CLocal end) p.
+
+(* the first removal site *)
+Fixpoint find_clear (pre : cprog) (p : cprog) : option (cprog * cprog) :=
+  match p with
+  | [] => None
+  | CClear :: r => Some (rev pre, r)
+  | a :: r => find_clear (a :: pre) r
+  end.
+
+(* the constructed schedule: the reader up to and including its membership test (a hit), the other thread
+   up to and including its removal, the reader's subscript read *)
+Definition removal_sched (loc pre : cprog) : list nat :=
+  repeat 0 (S (List.length loc)) ++ repeat 1 (S (List.length pre)) ++ [0].
 
 (* the first store of the protocol, if it stores something else than the final value *)
 Fixpoint find_placeholder (pre : cprog) (p : cprog) : option (cprog * nat * cprog) :=
@@ -111,18 +169,38 @@ Inductive cverdict := CacheSafe | CacheRacy | CacheUndecided.
 Definition cverdict_code (v : cverdict) : nat :=
   match v with CacheSafe => 0 | CacheRacy => 2 | CacheUndecided => 4 end.
 
+(* the reader of a placeholder: an atomic lookup or a check-then-read, reached through local steps *)
+Definition find_reader (q : cprog) : option (cprog * nat) :=
+  match find_lookup [] q with
+  | Some (loc, _) => Some (loc, 1)
+  | None => match find_checkread [] q with Some (loc, _) => Some (loc, 2) | None => None end
+  end.
+
+(* what makes a family of protocols on one slot safe: only computed values are stored, and either every
+   lookup is one atomic step, or nothing is ever removed and every subscript read is guarded by its test *)
+Definition protocols_safe (ps : list cprog) : bool :=
+  forallb stores_final ps && (forallb no_read ps || (forallb no_clear ps && forallb guarded ps)).
+
 (* writer protocol p, reader protocol q (two entry points of the same cache, possibly the same one) *)
 Definition cache_classify2 (p q : cprog) : cverdict :=
-  if stores_final p && stores_final q then CacheSafe
-  else match find_placeholder [] p, find_lookup [] q with
+  if protocols_safe [p; q] then CacheSafe
+  else match find_placeholder [] p, find_reader q with
        | Some _, Some _ => CacheRacy
        | _, _ => CacheUndecided
        end.
 
+(* reader p, remover q: a check-then-read next to a removal site *)
+Definition removal_racy2 (p q : cprog) : bool :=
+  match find_checkread [] p, find_clear [] (foreign_view q) with
+  | Some _, Some _ => true
+  | _, _ => false
+  end.
+
 (* a table entry: all the protocols that operate on one cache *)
 Definition cache_classify (ps : list cprog) : cverdict :=
-  if forallb stores_final ps then CacheSafe
+  if protocols_safe ps then CacheSafe
   else if existsb (fun p => existsb (fun q => match cache_classify2 p q with CacheRacy => true | _ => false end) ps) ps
+          || existsb (fun p => existsb (removal_racy2 p) ps) ps
        then CacheRacy else CacheUndecided.
 
 (* the witness as data, for the harness: (index of the writer, steps of the writer, index of the reader,
@@ -136,8 +214,22 @@ Definition cache_witness (ps : list cprog) : option (nat * nat * nat * nat) :=
     | None => None
     | Some (pre, _, _) =>
         first_some (fun jq : nat * cprog =>
-          match find_lookup [] (snd jq) with
-          | Some (loc, _) => Some (fst ip, S (List.length pre), fst jq, S (List.length loc))
+          match find_reader (snd jq) with
+          | Some (loc, k) => Some (fst ip, S (List.length pre), fst jq, k + List.length loc)
+          | None => None
+          end) (combine (seq 0 (List.length ps)) ps)
+    end) (combine (seq 0 (List.length ps)) ps).
+
+(* the removal witness as data: (reader protocol, steps of the reader up to its test, remover protocol,
+   steps of the remover up to its removal) *)
+Definition removal_witness (ps : list cprog) : option (nat * nat * nat * nat) :=
+  first_some (fun ip : nat * cprog =>
+    match find_checkread [] (snd ip) with
+    | None => None
+    | Some (loc, _) =>
+        first_some (fun jq : nat * cprog =>
+          match find_clear [] (foreign_view (snd jq)) with
+          | Some (pre, _) => Some (fst ip, S (List.length loc), fst jq, S (List.length pre))
           | None => None
           end) (combine (seq 0 (List.length ps)) ps)
     end) (combine (seq 0 (List.length ps)) ps).
@@ -149,6 +241,7 @@ Record centry := { ce_name : string; ce_kind : string; ce_file : string; ce_prog
 Definition centry_progs (e : centry) : list cprog := map snd (ce_progs e).
 Definition centry_verdict (e : centry) : cverdict := cache_classify (centry_progs e).
 Definition centry_witness (e : centry) : option (nat * nat * nat * nat) := cache_witness (centry_progs e).
+Definition centry_removal_witness (e : centry) : option (nat * nat * nat * nat) := removal_witness (centry_progs e).
 
 (* ---- many keys: the cache is a dictionary of slots, every thread works on the slot of ITS key ---- *)
 Definition kmem := nat -> slot.
@@ -170,6 +263,7 @@ Definition kstart (kps : list (nat * cprog)) : list kthread := map (fun kp => (f
 Definition kresult (cfg : kmem * list kthread) (i : nat) : option cval :=
   match nth_error (snd cfg) i with Some (_, Done r) => Some r | _ => None end.
 
-(* the view of one key: the threads of other keys are inert *)
+(* the view of one key: the threads of other keys are inert (a per-key removal; `cache.clear()`, which empties
+   EVERY slot, is what foreign_view models in the one-slot runs) *)
 Definition kproj (k : nat) (ts : list kthread) : list tstate :=
   map (fun kt : kthread => if Nat.eqb (fst kt) k then snd kt else Done CFinal) ts.
